@@ -27,7 +27,8 @@ Theorem c03_resume_no_loss_single_stream :
 Proof. exact resume_no_loss_single_stream. Qed.
 Print Assumptions c03_resume_no_loss_single_stream.
 
-(* the same with (quiescent) truncations in the history, provided a save happened since the last truncation *)
+(* the same with truncations in the history (admissible ones; with one stream every truncation is:
+   c03_single_stream_truncations_admissible), provided a save happened since the last truncation *)
 Theorem c03_resume_no_loss_single_stream_after_truncations :
   forall s0 acts st,
     acts_single s0 acts = true -> run_adm init acts = Some st -> fresh st = true ->
@@ -118,7 +119,8 @@ Print Assumptions c03_reachable_snapshot_sound.
    content passes PassEvent, and from then on the safety invariant holds for the new content (with [gone] = [] until
    the next kill): everything written after the truncation is delivered, in flight, or still to be read.
    Side condition [trunc_safe]: every event of the file still in flight at that moment has SeqID <= job.lastEventSeq
-   (e.g. nothing is in flight) — see c03_truncate_inflight_refuted for what happens otherwise. [live] = the events in
+   (e.g. nothing is in flight; always true with one stream per file: c03_truncate_inflight_single_stream_partial) —
+   see c03_truncate_inflight_refuted for what happens otherwise. [live] = the events in
    flight that were read after the last truncation. *)
 Theorem c03_truncate_restart :
   forall acts st ls part st',
@@ -133,31 +135,74 @@ Theorem c03_truncate_restart :
 Proof. exact truncate_restart. Qed.
 Print Assumptions c03_truncate_restart.
 
-(* one stream per file and the last line handed to the pipeline was accepted => the side condition holds, whatever is
-   still in flight (all SeqIDs of the one stream are <= the last one) *)
+(* ONE stream per file => the side condition holds at every instant of every history, whatever is still in flight and
+   whatever the last line handed to the pipeline was (accepted, empty, undecodable, already committed): all SeqIDs of
+   the one stream are <= job.lastEventSeq, which the repaired worker (fix dfe641a) only ever sets to the SeqID of an
+   ACCEPTED line. (Before the repair this needed the hypothesis last_seq st <> 0.) *)
 Theorem c03_truncate_inflight_single_stream_partial :
   forall s0 acts st,
-    acts_single s0 acts = true -> run_adm init acts = Some st -> last_seq st <> 0 -> trunc_safe st = true.
+    acts_single s0 acts = true -> run_adm init acts = Some st -> trunc_safe st = true.
 Proof. exact truncate_inflight_single_stream. Qed.
 Print Assumptions c03_truncate_inflight_single_stream_partial.
 
-(* CONFIRMED DEFECT (truncation while events are in flight). Event.SeqID counts per (source, stream NAME), but
-   truncateJob takes job.lastEventSeq — the SeqID of the last line read, whatever its stream, or 0 when that line was
-   not accepted (empty / undecodable / skipped) — as the boundary ignoreEventsLE for all streams of the file.
+(* Hence with one stream per file truncations need no side condition at all. [run_kill] restricts a history by the
+   kill window only (no kill between a truncation and the next save); truncations may come at ANY instant. Every such
+   single-stream history is admissible, Commit never panics, every complete line of the current content is delivered,
+   in flight (read after the last truncation) or still ahead of the reader and accepted by PassEvent, and a kill (once
+   a save happened since the last truncation) loses no line. *)
+Theorem c03_single_stream_truncations_admissible :
+  forall s0 acts st,
+    acts_single s0 acts = true -> run_kill init acts = Some st ->
+    run_adm init acts = Some st /\ panicked st = false /\
+    (forall l, In l (content st) ->
+       In l (ever st) \/ In l (map e_line (live (flight st))) \/ (pos st < l_end l /\ pass_event (cur st) l = true)) /\
+    (fresh st = true -> no_loss_b (content st) (ever st) (resume_delivered (content st) (disk st)) = true).
+Proof. exact single_stream_truncations_admissible. Qed.
+Print Assumptions c03_single_stream_truncations_admissible.
+
+(* any number of streams: the side condition holds whenever the SeqID counter of every stream that has an event in
+   flight is <= job.lastEventSeq (e.g. the last accepted line belongs to the only stream with events in flight) *)
+Theorem c03_truncate_inflight_counters_partial :
+  forall acts st,
+    run_adm init acts = Some st ->
+    (forall e n, In e (flight st) -> lookup (l_stream (e_line e)) (seqs st) = Some n -> n <= last_seq st) ->
+    trunc_safe st = true.
+Proof. exact truncate_inflight_counters. Qed.
+Print Assumptions c03_truncate_inflight_counters_partial.
+
+(* CONFIRMED DEFECT (truncation while events of ANOTHER stream are in flight). Event.SeqID counts per (source, stream
+   NAME), but truncateJob takes job.lastEventSeq — the SeqID of the last accepted line, whatever its stream — as the
+   boundary ignoreEventsLE for all streams of the file.
    (1) last line of stream b (SeqID 1), four events of stream a in flight (SeqIDs 1..4): three of them are committed
    after the truncation, the first new line (offset 43) then hits Panicf("offset corruption: committing=43,
    current=174") and the process dies; (2) same history, the old commits land before the new line is read: PassEvent
-   rejects the new line (43 <= 174), it is never delivered; (3) ONE stream, the file ends in an empty line
-   (lastEventSeq = 0): nothing is ignored, same panic. *)
+   rejects the new line (43 <= 174), it is never delivered. *)
 Theorem c03_truncate_inflight_refuted :
   (exists st, run init witness_trunc_inflight = Some st /\ panicked st = true) /\
   (exists st, run init witness_trunc_inflight_skip = Some st /\ panicked st = false /\
               content st = [ta 5 43] /\ flight st = [] /\ ever st = [] /\ next_line st = None /\
-              cur st = [(sa, 174)] /\ pass_event (cur st) (ta 5 43) = false) /\
-  (exists st, run init witness_trunc_inflight_junk = Some st /\ acts_single sa witness_trunc_inflight_junk = true /\
-              panicked st = true).
+              cur st = [(sa, 174)] /\ pass_event (cur st) (ta 5 43) = false).
 Proof. exact truncate_inflight_refuted. Qed.
 Print Assumptions c03_truncate_inflight_refuted.
+
+(* REPAIRED DEFECT (fix dfe641a; formerly the third part of c03_truncate_inflight_refuted). ONE stream, the file ends in
+   an empty line, four events in flight at the truncation. The worker used to store In's EventSeqIDError (0) in
+   job.lastEventSeq, so nothing was ignored and the history ended in the same panic. Now: the history is admissible,
+   ignoreEventsLE = 4 covers the four old events, nothing panics, the new line (ends at byte 43) is read, delivered and
+   its offset committed (cur = a: 43), nothing is left in flight or unread — whether the old commits land after or
+   before the new line is read. *)
+Theorem c03_truncate_inflight_blank_line_repaired :
+  acts_single sa witness_trunc_inflight_junk = true /\ acts_single sa witness_trunc_inflight_junk_skip = true /\
+  (exists st, run init witness_trunc_inflight_junk = Some st /\ run_adm init witness_trunc_inflight_junk = Some st /\
+              panicked st = false /\ ign st = 4 /\ content st = [ta 5 43] /\ ever st = [ta 5 43] /\
+              out st = [ta 5 43; ta 3 174; ta 2 131; ta 1 88; ta 0 45] /\
+              flight st = [] /\ next_line st = None /\ cur st = [(sa, 43)]) /\
+  (exists st, run init witness_trunc_inflight_junk_skip = Some st /\ run_adm init witness_trunc_inflight_junk_skip = Some st /\
+              panicked st = false /\ ign st = 4 /\ content st = [ta 5 43] /\ ever st = [ta 5 43] /\
+              out st = [ta 5 43; ta 3 174; ta 2 131; ta 1 88; ta 0 45] /\
+              flight st = [] /\ next_line st = None /\ cur st = [(sa, 43)]).
+Proof. exact truncate_inflight_blank_line_repaired. Qed.
+Print Assumptions c03_truncate_inflight_blank_line_repaired.
 
 (* in admissible histories Commit never reaches Panicf("offset corruption") *)
 Theorem c03_commit_never_panics :
@@ -173,11 +218,16 @@ Example c03_nonvacuous :
               resume_delivered (content st) (disk st) = [wl 1 20; wl 2 30; wl 3 40] /\
               no_loss_b (content st) (ever st) (resume_delivered (content st) (disk st)) = true)
   /\ (exists st st', run_adm init witness_trunc = Some st /\ trunc_safe st = true /\
-                     step st (ATruncate [wl 5 8; wl 6 16] 0) = Some st' /\ cur st' = [(sa, 0)] /\ pos st' = 0).
+                     step st (ATruncate [wl 5 8; wl 6 16] 0) = Some st' /\ cur st' = [(sa, 0)] /\ pos st' = 0)
+  (* a single-stream [run_kill] history with a truncation while four events are in flight after an empty last line *)
+  /\ (exists st, run_kill init witness_trunc_inflight_junk = Some st /\ acts_single sa witness_trunc_inflight_junk = true /\
+                 ever st = [ta 5 43] /\ ign st = 4).
 Proof.
-  split.
+  split; [|split].
   - destruct (run init witness_single) as [st|] eqn:E; [|vm_compute in E; discriminate].
     exists st. vm_compute in E. injection E as <-. vm_compute. repeat split; reflexivity.
   - destruct (run_adm init witness_trunc) as [st|] eqn:E; [|vm_compute in E; discriminate].
     vm_compute in E. injection E as <-. eexists. eexists. vm_compute. repeat split; reflexivity.
+  - destruct (run_kill init witness_trunc_inflight_junk) as [st|] eqn:E; [|vm_compute in E; discriminate].
+    exists st. vm_compute in E. injection E as <-. vm_compute. repeat split; reflexivity.
 Qed.
